@@ -13,19 +13,72 @@ namespace ShellOp.HookRun.C12
 
 open ShellOp.HookRun
 
-theorem prepare_all_ok (ns : List Name) :
-    ∀ (oks : List Bool) (dir : List Name), (∀ b ∈ oks, b = true) →
-      prepare ns oks dir = (ns.reverse ++ dir, true) := by
+/-- What the prepare loop returns: some prefix `c` of the names was created (pushed on the
+directory); all of them when it reports success. -/
+theorem prepare_spec (ns : List Name) :
+    ∀ (oks : List Bool) (dir cr : List Name),
+      ∃ c, prepare ns oks dir cr = (c.reverse ++ dir, cr ++ c, (prepare ns oks dir cr).2.2) ∧
+        (∀ x ∈ c, x ∈ ns) ∧ ((prepare ns oks dir cr).2.2 = true → c = ns) := by
   induction ns with
-  | nil => intro oks dir _; simp [prepare]
+  | nil => intro oks dir cr; exact ⟨[], by simp [prepare], by simp, by simp⟩
   | cons n ns ih =>
-    intro oks dir h
+    intro oks dir cr
     cases oks with
-    | nil => simp [prepare, ih [] (n :: dir) (by simp)]
+    | nil =>
+      obtain ⟨c, h1, h2, h3⟩ := ih [] (n :: dir) (cr ++ [n])
+      refine ⟨n :: c, ?_, ?_, ?_⟩
+      · simp only [prepare]; rw [h1]; simp
+      · intro x hx; simp only [List.mem_cons] at hx ⊢
+        rcases hx with rfl | hx
+        · exact Or.inl rfl
+        · exact Or.inr (h2 x hx)
+      · intro hb; simp only [prepare] at hb; rw [h3 hb]
+    | cons b bs =>
+      cases b with
+      | false => exact ⟨[], by simp [prepare], by simp, by simp [prepare]⟩
+      | true =>
+        obtain ⟨c, h1, h2, h3⟩ := ih bs (n :: dir) (cr ++ [n])
+        refine ⟨n :: c, ?_, ?_, ?_⟩
+        · simp only [prepare, ↓reduceIte]; rw [h1]; simp
+        · intro x hx; simp only [List.mem_cons] at hx ⊢
+          rcases hx with rfl | hx
+          · exact Or.inl rfl
+          · exact Or.inr (h2 x hx)
+        · intro hb; simp only [prepare, ↓reduceIte] at hb; rw [h3 hb]
+
+theorem prepare_all_ok (ns : List Name) :
+    ∀ (oks : List Bool) (dir cr : List Name), (∀ b ∈ oks, b = true) →
+      prepare ns oks dir cr = (ns.reverse ++ dir, cr ++ ns, true) := by
+  induction ns with
+  | nil => intro oks dir cr _; simp [prepare]
+  | cons n ns ih =>
+    intro oks dir cr h
+    cases oks with
+    | nil => simp [prepare, ih [] (n :: dir) (cr ++ [n]) (by simp)]
     | cons b bs =>
       have hb : b = true := h b (by simp)
       subst hb
-      simp [prepare, ih bs (n :: dir) (fun x hx => h x (by simp [hx]))]
+      simp [prepare, ih bs (n :: dir) (cr ++ [n]) (fun x hx => h x (by simp [hx]))]
+
+theorem removeAll_append (rs cs dir : List Name) (h1 : ∀ x ∈ cs, x ∈ rs) (h2 : ∀ x ∈ rs, x ∉ dir) :
+    removeAll rs (cs ++ dir) = dir := by
+  unfold removeAll
+  rw [List.filter_append]
+  have e1 : cs.filter (fun x => !rs.contains x) = [] := by
+    apply List.filter_eq_nil_iff.mpr
+    intro x hx
+    simp [h1 x hx]
+  have e2 : dir.filter (fun x => !rs.contains x) = dir := by
+    apply List.filter_eq_self.mpr
+    intro x hx
+    simp only [Bool.not_eq_true', List.contains_eq_mem, decide_eq_false_iff_not]
+    intro hr
+    exact h2 x hr hx
+  rw [e1, e2]; rfl
+
+theorem removed_perm (names : Names) (x : Name) : x ∈ names.removed ↔ x ∈ names.created := by
+  simp only [Names.removed, Names.created, List.mem_cons, List.not_mem_nil, or_false]
+  constructor <;> (rintro (h | h | h | h | h) <;> simp [h])
 
 /-- **C12.1 (`Run` outcome, in the code's order)** When the five files could be created, `Run`
 fails iff exit ≠ 0 ∨ metrics unparsable ∨ admission response unparsable ∨ conversion response
@@ -42,7 +95,7 @@ theorem run_outcome (keep : Bool) (names : Names) (oks : List Bool) (out : Outpu
     (out.exit = 0 → out.metrics ≠ .err → out.admission = .err → r.stage = .admission) ∧
     (out.exit = 0 → out.metrics ≠ .err → out.admission ≠ .err → out.conversion = .err →
         r.stage = .conversion) := by
-  simp only [run, prepare_all_ok names.created oks dir hok]
+  simp only [run, prepare_all_ok names.created oks dir [] hok]
   by_cases h0 : out.exit = 0 <;> by_cases h1 : out.metrics = .err <;>
     by_cases h2 : out.admission = .err <;> by_cases h3 : out.conversion = .err <;>
     by_cases h4 : out.patch = .unreadable <;>
@@ -60,7 +113,7 @@ theorem handle_outcome (keep : Bool) (names : Names) (oks : List Bool) (out : Ou
     h.admissionProp = Spec.admissionRelayed out ∧
     h.conversionProp = Spec.conversionRelayed out := by
   obtain ⟨e, m, a, c, p⟩ := out
-  simp only [run, prepare_all_ok names.created oks dir hok]
+  simp only [run, prepare_all_ok names.created oks dir [] hok]
   by_cases h0 : e = 0
   · subst h0
     cases m with
@@ -114,7 +167,7 @@ theorem execution_meets_contract (allow keep : Bool) (names : Names) (oks : List
 theorem nonzero_exit_fails (keep : Bool) (names : Names) (oks : List Bool) (out : Outputs)
     (dir : List Name) (hok : ∀ b ∈ oks, b = true) (he : out.exit ≠ 0) :
     handle (run keep names oks out dir) = ⟨.run, false, false, false, false⟩ := by
-  simp [run, prepare_all_ok names.created oks dir hok, handle, runBody, RunResult.failed, he]
+  simp [run, prepare_all_ok names.created oks dir [] hok, handle, runBody, RunResult.failed, he]
 
 /-- The task is reported as failed unless failure is allowed. -/
 theorem task_status (allow : Bool) (keep : Bool) (names : Names) (oks : List Bool) (out : Outputs)
@@ -123,39 +176,57 @@ theorem task_status (allow : Bool) (keep : Bool) (names : Names) (oks : List Boo
   simp [taskStatusFail, (handle_outcome keep names oks out dir hok).1]
 
 /-- **C12.2 (temp files removed, whatever the outcome)** With the keep-tmp debug variable not
-"yes", all five files creatable and their names fresh, the temp directory after `Run` is exactly the
-directory before — for every exit code and every content of the output files. -/
+"yes" and fresh file names, the temp directory after `Run` is exactly the directory before — for
+every exit code, every content of the output files, and every pattern of file creation failures
+(the repaired code registers the removal first). -/
 theorem temp_files_removed (names : Names) (oks : List Bool) (out : Outputs) (dir : List Name)
-    (hok : ∀ b ∈ oks, b = true) (hfresh : ∀ n ∈ names.created, n ∉ dir) :
+    (hfresh : ∀ n ∈ names.created, n ∉ dir) :
     (run false names oks out dir).dir = dir := by
-  have hd : removeAll names.removed (names.created.reverse ++ dir) = dir := by
-    obtain ⟨a, b, c, d, e⟩ := names
-    simp only [Names.created, List.mem_cons, List.not_mem_nil, or_false] at hfresh
-    simp only [removeAll, Names.removed, Names.created, List.reverse_cons, List.reverse_nil,
-      List.nil_append, List.cons_append, List.filter_cons]
-    simp only [List.contains_cons, List.contains_nil, Bool.or_false, beq_self_eq_true, Bool.or_true,
-      Bool.true_or, Bool.not_true, Bool.false_eq_true, ↓reduceIte]
-    apply List.filter_eq_self.mpr
-    intro x hx
-    have := fun n hn => hfresh n hn
-    simp only [Bool.not_eq_true', Bool.or_eq_false_iff, beq_eq_false_iff_ne, ne_eq]
-    refine ⟨?_, ?_, ?_, ?_, ?_⟩ <;> (intro heq; subst heq; exact hfresh x (by simp) hx)
-  simp only [run, prepare_all_ok names.created oks dir hok]
-  by_cases hs : runBody out = .none <;> simp [hs, hd]
+  obtain ⟨c, hc, hsub, _⟩ := prepare_spec names.created oks dir []
+  have hclean : cleanup false names c (c.reverse ++ dir) = dir := by
+    simp only [cleanup, Bool.false_eq_true, ↓reduceIte]
+    apply removeAll_append
+    · intro x hx
+      have hxc : x ∈ c := List.mem_reverse.mp hx
+      simp only [List.mem_filter, List.contains_eq_mem, decide_eq_true_eq]
+      exact ⟨(removed_perm names x).mpr (hsub x hxc), hxc⟩
+    · intro x hx
+      simp only [List.mem_filter, List.contains_eq_mem, decide_eq_true_eq] at hx
+      exact hfresh x (hsub x hx.2)
+  simp only [run]
+  rw [hc]
+  simp only [List.nil_append]
+  cases (prepare names.created oks dir []).2.2
+  · simp [hclean]
+  · by_cases hs : runBody out = .none <;> simp [hs, hclean]
 
 /-- With the debug variable set to "yes" the files are kept (this is what the variable is for). -/
 theorem keep_tmp_files (names : Names) (oks : List Bool) (out : Outputs) (dir : List Name)
     (hok : ∀ b ∈ oks, b = true) :
     (run true names oks out dir).dir = names.created.reverse ++ dir := by
-  simp only [run, prepare_all_ok names.created oks dir hok]
+  simp only [run, prepare_all_ok names.created oks dir [] hok, cleanup]
   by_cases hs : runBody out = .none <;> simp [hs]
 
-/-- **Excluded point (outside the property's quantifier, which ranges over exit codes and file
-contents): a file creation failing half-way.** The files created before the failure stay — the
-deferred removal is registered only after all five exist — and the process is never started. -/
-theorem halfway_leak_witness :
-    let r := run false ⟨1, 2, 3, 4, 5⟩ [true, true, false] ⟨0, .none, .none, .none, .empty⟩ [9]
-    r.dir = [2, 1, 9] ∧ r.started = false ∧ r.stage = .prepare := by decide
+/-- A file creation failing half-way: the process is never started, the execution fails, and (by
+`temp_files_removed`) nothing stays behind. -/
+theorem prepare_failure (keep : Bool) (names : Names) (oks : List Bool) (out : Outputs) (dir : List Name)
+    (h : (prepare names.created oks dir []).2.2 = false) :
+    (run keep names oks out dir).started = false ∧ (run keep names oks out dir).stage = .prepare ∧
+    (handle (run keep names oks out dir)).failed = true := by
+  simp only [run]
+  generalize prepare names.created oks dir [] = r at h
+  obtain ⟨d, c, b⟩ := r
+  simp only at h
+  subst h
+  simp [handle, RunResult.failed, HandleResult.failed]
+
+/-- Regression witness for the repaired defect: the unrepaired `Run` registered the removal only
+after all five files existed; when the third file could not be created (a hook whose name makes the
+admission-response file name longer than NAME_MAX) the first two files stayed behind on every retry. -/
+theorem halfway_leak_unrepaired_witness :
+    runUnrepairedDir false ⟨1, 2, 3, 4, 5⟩ [true, true, false] [9] = [2, 1, 9] ∧
+    (run false ⟨1, 2, 3, 4, 5⟩ [true, true, false] ⟨0, .none, .none, .none, .empty⟩ [9]).dir = [9] := by
+  decide
 
 /-! ## unique names -/
 
